@@ -296,8 +296,14 @@ for i in range(200 * N):
     curve = R.choice([256, 384])
     n = curve // 4
     xy = rand_bytes(n)
-    form = R.choice(["bare", "wrapped", "wrapped", "bare", "ambiguous", "short", "long", "compressed", "empty", "one", "noprefix", "wrapped_badlen"])
-    if form == "bare":
+    form = R.choice(["bare", "wrapped", "wrapped", "bare", "ambiguous", "short", "long", "compressed", "empty", "one", "noprefix", "wrapped_badlen", "lenlike", "lenlike"])
+    if form == "lenlike":
+        # a bare point whose X begins with the octet a DER wrapper would carry as length, but not followed by 0x04: still a bare point
+        xy = bytes([n - 1, R.choice([0, 3, 5, 255, R.randrange(256)])]) + xy[2:]
+        if xy[1] == 4:
+            xy = bytes([n - 1, 7]) + xy[2:]
+        point = b"\x04" + xy
+    elif form == "bare":
         point = b"\x04" + xy
     elif form == "wrapped":
         point = bytes([4, n + 1, 4]) + xy
